@@ -34,11 +34,19 @@ pub enum Chunking {
 impl Chunking {
     pub fn split(&self, data: &[u8]) -> Vec<Bytes> {
         match self {
-            Chunking::Whole => vec![Bytes::copy_from_slice(data)],
+            // an empty body is a stream without any chunk (what a file or HTTP transport yields);
+            // explicit empty chunks come from `Cuts`
+            Chunking::Whole => {
+                if data.is_empty() {
+                    vec![]
+                } else {
+                    vec![Bytes::copy_from_slice(data)]
+                }
+            }
             Chunking::Fixed(n) => {
                 let n = (*n).max(1);
                 if data.is_empty() {
-                    vec![Bytes::new()]
+                    vec![]
                 } else {
                     data.chunks(n).map(Bytes::copy_from_slice).collect()
                 }
